@@ -155,7 +155,8 @@ static void row(int e) {
       string kase = kase0 + fmt(" (call flavour %d)", flavour) + (cx == CX_DIRECT ? string() : string(" [called ") + CTX_NAME[cx] + "]");
       auto key = [&](const char* kind) {
         if (cx == CX_DIRECT) direct_bad = true;
-        if (cx == CX_DIRECT || direct_bad) return fmt("expect_raises:%s:%s:%s", EXPECTED_NAME[e], bn.c_str(), kind);
+        bool site_kind = !strcmp(kind, "site") || !strcmp(kind, "what");  // where the failure points, not which cell: one key
+        if (cx == CX_DIRECT || direct_bad) return site_kind ? fmt("expect_raises:%s", kind) : fmt("expect_raises:%s:%s:%s", EXPECTED_NAME[e], bn.c_str(), kind);
         return fmt("context:%s:expect_raises:%s", CTX_NAME[cx], kind);
       };
       if (cx == CX_DIRECT) direct[o.site_line] = o;
